@@ -190,6 +190,9 @@ func scenario(param string) vsched.Scenario {
 			serverDone  bool
 			originRaw   bytes.Buffer
 			proceedDone bool
+			// the origin's attempt to answer request i was refused by the proxy's end of the connection
+			originWriteFailedAt = -1
+			originWriteErr      error
 		)
 		users := map[string]string(nil)
 		if sp.auth != "off" {
@@ -253,6 +256,7 @@ func scenario(param string) vsched.Scenario {
 						break
 					}
 					if _, err := oc.Write([]byte(respKinds[kind])); err != nil {
+						originWriteFailedAt, originWriteErr = i, err
 						break
 					}
 					// record what was sent, parsed by the same parser
@@ -428,6 +432,21 @@ func scenario(param string) vsched.Scenario {
 				}
 				if !ended {
 					return obs, fmt.Sprintf("only %d of %d requests reached the origin", len(originGot), need)
+				}
+			}
+			// a forwarded request's response must be accepted from the origin while the client still waits for it
+			// (the client reads until end-of-stream): the origin's write may only fail after an exchange that
+			// legitimately ended the connection
+			if originWriteFailedAt >= 0 {
+				ended := false
+				for i := 0; i < originWriteFailedAt && i < len(sp.exchs); i++ {
+					k := sp.exchs[i].resp
+					if k == "EARLYEOF" || k == "SCLOSE" || k == "S301" || sp.exchs[i].req == "GETCLOSE" {
+						ended = true
+					}
+				}
+				if !ended {
+					return obs, fmt.Sprintf("the proxy refused the origin's response to forwarded request %d (%v) while the client was waiting for it", originWriteFailedAt, originWriteErr)
 				}
 			}
 			// responses: what the client got must be a prefix-by-order of what the origin sent, intact
